@@ -361,6 +361,11 @@ def run_real(src, std="f2008", ignore_comments=True, process_directives=False, f
             if rec.blank_eof is None:
                 rec.blank_eof = rec.is_blank()
             break
+        except SystemExit:
+            # the reader's error() ends the process (F-C06-4): the stream ends here
+            if rec.blank_eof is None:
+                rec.blank_eof = rec.is_blank()
+            break
         rec.see(item)
     SYMBOL_TABLES.clear()
     return rec, outcome, tree, forest, chain
